@@ -16,6 +16,7 @@ rsync -a --exclude .git /repo/ "$S/"
 echo "BUILD ok"
 if ( cd "$S" && go test -vet=off -count=1 ./... ) >"$S/.test.out" 2>&1; then echo "TESTS ok"; else echo "TESTS FAIL"; grep -E '^(--- FAIL|FAIL)' "$S/.test.out" | head -5; fi
 for P in "$@"; do
+  mkdir -p "$S/.verif"; cp "$D/known-findings.txt" "$S/.verif/" 2>/dev/null
   OUT="$(VERIF_DIR="$S/.verif" "$D/bin/gtfscheck" -property "$P" -tier quick -repo "$S" 2>&1)"
   if echo "$OUT" | grep -q '^VIOLATION'; then
     echo "$P CAUGHT"; echo "$OUT" | grep -E '^(VIOLATED|UNDECIDED|ANALYSER)' -A2 | grep -v '^VIOLATION' | head -${MUT_LINES:-8}
